@@ -8,7 +8,7 @@
     separately.  Grains are not modelled for these features (quaternion interpolation between sections,
     known finding D4): a grains request makes the model answer "not modelled". *)
 From Coq Require Import ZArith NArith List Bool.
-From WB Require Import Num Base Props World Kernels Features Bezier SlabLayout SlabModel.
+From WB Require Import Num Base Props World Kernels Features Bezier BezierSph SlabLayout SlabModel.
 Import ListNotations.
 
 Section SlabFeature.
@@ -102,7 +102,7 @@ Section SlabFeature.
   }.
 
   Record line_feature := {
-    lf_fault : bool; lf_coords : list pt2; lf_dip : pt2; lf_min : F; lf_max : F;
+    lf_fault : bool; lf_sph : bool; lf_dm : @depth_method; lf_coords : list pt2; lf_dip : pt2; lf_min : F; lf_max : F;
     lf_table : list (list lseg);                 (* per trench coordinate *)
     lf_tag : F
   }.
@@ -116,9 +116,13 @@ Section SlabFeature.
   Definition total_length (row : list lseg) : F := fold_left (fun acc s => acc + ls_len s) row f0.
 
   Definition lf_distances (lf : line_feature) (q : @query F) : @plane_distances F :=
-    let '(_, _, z) := q_nat q in
-    let sr := (z + q_depth q) - lf_min lf in
-    let pd := distance_point_from_curved_planes (q_pos q) (lf_dip lf) (lf_coords lf) (lf_geom lf) sr (bezier_build (lf_coords lf)) in
+    let '(n0, _, z) := q_nat q in
+    (* the depth coordinate: z in Cartesian, the radius in spherical worlds *)
+    let sr := ((if lf_sph lf then fst (fst (q_nat q)) else z) + q_depth q) - lf_min lf in
+    let pd := if lf_sph lf
+              then distance_point_from_curved_planes_sph (lf_dm lf) closest_point_spherical (q_pos q) (lf_dip lf) (lf_coords lf)
+                                                         (lf_geom lf) sr (bezier_build (lf_coords lf))
+              else distance_point_from_curved_planes (q_pos q) (lf_dip lf) (lf_coords lf) (lf_geom lf) sr (bezier_build (lf_coords lf)) in
     (* Fault::properties asks for positive distances only *)
     if lf_fault lf then
       {| pd_distance := fabs (pd_distance pd); pd_along := pd_along pd; pd_section_fraction := pd_section_fraction pd;
@@ -209,8 +213,13 @@ Section SlabFeature.
 
   Definition table_of_layout (L : layout mkind mlist_ sgeom) : list (list lseg) := map (map lseg_of) (table L).
 
+  Definition line_of_layout_gen (fault sph : bool) (dm : @depth_method) (coords : list pt2) (dip : pt2) (mn mx : F)
+             (L : layout mkind mlist_ sgeom) (tag : F) : line_feature :=
+    {| lf_fault := fault; lf_sph := sph; lf_dm := dm; lf_coords := coords; lf_dip := dip; lf_min := mn; lf_max := mx;
+       lf_table := table_of_layout L; lf_tag := tag |}.
+
   Definition line_of_layout (fault : bool) (coords : list pt2) (dip : pt2) (mn mx : F)
              (L : layout mkind mlist_ sgeom) (tag : F) : line_feature :=
-    {| lf_fault := fault; lf_coords := coords; lf_dip := dip; lf_min := mn; lf_max := mx;
+    {| lf_fault := fault; lf_sph := false; lf_dm := DMNone; lf_coords := coords; lf_dip := dip; lf_min := mn; lf_max := mx;
        lf_table := table_of_layout L; lf_tag := tag |}.
 End SlabFeature.
